@@ -1061,6 +1061,7 @@ func main() {
 	maxPlaces, guarded := checkRounding(builtinFile)
 	maxText := intConstant(filepath.Join(*repo, "excellent/types/text.go"), "MaxTextLength")
 	maxRender := intConstant(filepath.Join(*repo, "excellent/types/base.go"), "MaxRenderSize")
+	maxRepeat := intConstant(filepath.Join(*repo, "excellent/functions/builtin.go"), "maxRepeatLength")
 	treeGo := filepath.Join(*repo, "excellent/tree.go")
 	anonDepth, anonCalls := intConstant(treeGo, "maxAnonFunctionDepth"), intConstant(treeGo, "maxAnonFunctionCalls")
 	evalWork, callWork := intConstant(treeGo, "maxEvaluationWork"), intConstant(treeGo, "functionCallWork")
@@ -1145,6 +1146,7 @@ func main() {
 	}
 	b.WriteString("].\n")
 	fmt.Fprintf(&b, "\nDefinition max_text_length_src : Z := %s.\nDefinition max_render_size_src : Z := %s.\n", z(int(maxText)), z(int(maxRender)))
+	fmt.Fprintf(&b, "Definition max_repeat_length_src : Z := %s.\n", z(int(maxRepeat)))
 	fmt.Fprintf(&b, "Definition max_anon_function_depth_src : Z := %s.\nDefinition max_anon_function_calls_src : Z := %s.\n", z(int(anonDepth)), z(int(anonCalls)))
 	fmt.Fprintf(&b, "Definition max_evaluation_work_src : Z := %s.\nDefinition function_call_work_src : Z := %s.\n", z(int(evalWork)), z(int(callWork)))
 	fmt.Fprintf(&b, "\nDefinition max_number_exponent_src : Z := %s.\n\nDefinition operator_guards : list (string * bool) := [", z(maxExp))
